@@ -105,6 +105,9 @@ _bk_gen, _bk_chk = build.backend_dimension(0.12)
 gen_case = _bk_gen(gen_case)
 check_case = _bk_chk(check_case)
 
+# no clause depends on the coordinate unit: 8 % of the planar cases are expressed in a small unit (everything x 2^-7..2^-17)
+gen_case = mcase.scale_dimension(0.08)(gen_case)
+
 TECHNIQUE = "runtime monitoring: oracle over the returned (states, index) pair and the live lattice after every public call of generated histories"
 LEVEL_TEXT = ("{Q} (quick) / {T} (thorough) histories, ~2.5 judged results each: alignment of the best path with the observations, one emitting state per "
               "matched observation, returned list = path keys (collapsed iff unique), index = last column with a live emitting entry, empty result iff "
